@@ -16,6 +16,7 @@ from mc import programs as P
 from mc.oracle import jets
 from mc.props import c01_common as cm
 
+_QUICK_GRAMMAR = set(P.depth1() + P.STATIONARY)
 LEVEL = 'exploration'
 CALIBRATE = bool(os.environ.get('VERIF_CALIBRATE'))
 PHIS = [math.pi / 2, 0.7]
@@ -115,8 +116,8 @@ def run_spec(spec, points, tier, visit, quick_slice=0, honesty=False, want_steps
     real = spec[0] == 'real'
     dpt = jets.depth(spec[1]) if real else jets.depth(spec[2])
     deep = real and dpt >= 3
-    mid = tier == 'thorough' and dpt == 2 and not (real and spec[1][0] == 'u' and spec[1][2][0] == 's') and \
-        not (real and spec[1] in P.STATIONARY)
+    # (the quick grammar runs on the full pool in both tiers, so that quick cases are a subset of thorough cases)
+    mid = tier == 'thorough' and dpt == 2 and not (real and spec[1] in _QUICK_GRAMMAR)
     if deep:      # depth-3 chains: 5-point sub-pool and orders {1, 2, 4, 6}
         combs = [c for c in combs if c.x in (0.05, 0.75, 4.0, 100.0, -2.0)]
     elif mid:     # depth-2 compositions / binaries: 6-point sub-pool and orders {1, 2, 3, 4, 6, 8}
